@@ -236,6 +236,13 @@ theorem carPrefix_nonmicro {s s' : State} {a : Act} {o : Out} (ha : ∀ th ch ch
       obtain ⟨rfl, -⟩ := hs
       simpa using hp
     · simp at hs
+  | routerOk c =>
+    simp only [step] at hs
+    split at hs
+    · simp only [Option.some.injEq, Prod.mk.injEq] at hs
+      obtain ⟨rfl, -⟩ := hs
+      simpa using hp
+    · simp at hs
   | stopReq c =>
     simp only [step] at hs
     split at hs
